@@ -923,11 +923,29 @@ func (e *Engine) subArrayPtr(st *State, s *SliceV, n int) *PtrV {
 
 func (e *Engine) sliceOp(st *State, fr *Frame, x *ssa.Slice) Value {
 	base := e.val(st, fr, x.X)
+	limit := 0
+	switch b := base.(type) {
+	case *StringV:
+		limit = len(b.B)
+	case *SliceV:
+		limit = b.Cap
+	case *PtrV:
+		if pt, ok := x.X.Type().Underlying().(*types.Pointer); ok {
+			if at, ok := pt.Elem().Underlying().(*types.Array); ok {
+				limit = int(at.Len())
+			}
+		}
+	}
 	get := func(v ssa.Value, def int) int {
 		if v == nil {
 			return def
 		}
 		t := e.idx64(st, fr, v)
+		if !t.IsConst() {
+			// decide the bounds check before enumerating values: an index that can
+			// leave [0, cap] panics (one path), the rest has at most cap+1 values.
+			e.guard(st, e.inBounds(t, limit+1), "slice bounds out of range")
+		}
 		c := e.concretize(st, t)
 		return int(c.Int64())
 	}
